@@ -643,6 +643,12 @@ impl Model {
                 }
                 Ok(MResp { events: self.real_module_events.pop_front().unwrap_or_default(), data: None })
             }
+            CMsg::FundPool { coins } => {
+                // handed to the distribution module, which does not support it
+                self.module_call("distribution", sender, format!("fund_pool:{}", coins_string(coins)))?;
+                self.fault("unsupported_distribution_message");
+                Err(())
+            }
             CMsg::Withdraw { validator } => {
                 // chainsim runs with APR 0: there is never a positive reward, so the withdrawal
                 // (which would mint nothing) is rejected, like any operation without a positive amount
@@ -1041,6 +1047,11 @@ impl Model {
                 WriteOp::Bulk { tag, n, salt } => {
                     for i in 0..*n {
                         kv_after.insert(crate::ops::bulk_key(*tag, i), vec![*tag, (i >> 8) as u8, i as u8, 1, *salt]);
+                    }
+                }
+                WriteOp::Hammer { k, n } => {
+                    if *n > 0 {
+                        kv_after.insert(names.key(k), format!("h{}", n - 1).into_bytes());
                     }
                 }
                 WriteOp::BulkRemove { tag, n } => {
